@@ -247,7 +247,7 @@ func runBatch(c *Case) *Obs {
 					h.add("ret-next", k, "batch", cp)
 				case err == stream.End:
 					h.add("ret-next", k, "end")
-				case err == context.Canceled:
+				case isCtxErr(err):
 					h.add("ret-next", k, "ctx")
 				default:
 					if se, ok := err.(*srcErr); ok {
